@@ -178,8 +178,15 @@ end
 def printFn (name : Str) (c : Compound) (rs : Redirs) : Str :=
   name ++ " () \n".toList ++ (printCompound c ++ printRedirs rs)
 
-/-- the value `compose_std_command` puts in `BASH_FUNC_name%%` -/
-def exportText (c : Compound) (rs : Redirs) : Str := "() ".toList ++ (printCompound c ++ printRedirs rs)
+def isBrace : Compound → Bool
+  | .brace _ => true
+  | _ => false
+
+/-- the value `compose_std_command` puts in `BASH_FUNC_name%%`: `() ` and the body; a body that is not
+a brace group is put inside one (bash only imports values that start with `() {`). -/
+def exportText (c : Compound) (rs : Redirs) : Str :=
+  if isBrace c then "() ".toList ++ (printCompound c ++ printRedirs rs)
+  else "() { \n".toList ++ (printCompound c ++ printRedirs rs) ++ "\n}".toList
 
 /-! ## Reading the printed text back: the token level
 
